@@ -1,10 +1,11 @@
 /-
 WCore statement layer, fragment F1-scalar: assignment and op-assignment to a scalar
 variable or to an array element `a[i]`, with a pure right-hand side.  Mirror of `bcheckAssignment` /
-`bcheckAssignment1` (lang/check/bounds.go) and of `appendFact`,
+`bcheckAssignment1`, `mentionsElementsOf` (lang/check/bounds.go) and of `appendFact`,
 `dropAnyFactsMentioning`, `facts.update`, `simplify` (lang/check/assert.go) — the
 REPAIRED rules (fixes/C01-fact-from-self-referential-assign.patch,
-fixes/C01-fact-rewrite-self-referential-opassign.patch).
+fixes/C01-fact-rewrite-self-referential-opassign.patch,
+fixes/C01-index-alias-store.patch).
 
 `checkStmt fs s = some fs'`: the statement is accepted under the facts `fs` and the
 checker goes on with `fs'`; `none`: rejected.
@@ -28,6 +29,27 @@ def appendFact (fs : List Expr) : Expr → List Expr
 /-- `dropAnyFactsMentioning` -/
 def dropMentioning (fs : List Expr) (x : Expr) : List Expr :=
   fs.filter (fun f => !mentions f x)
+
+/-- the closure `mentionsLHS` of `bcheckAssignment`: does `x` depend on the assigned
+location?  For a variable: `x.Mentions(lhs)`.  For an element `a[i]`: also when `x`
+reads ANY element of `a` (`mentionsElementsOf(x, base)`), since `a[j]` is the same
+location whenever `j == i` at run time. -/
+def mentionsLHS (lhs x : Expr) : Bool :=
+  mentions x lhs ||
+  match lhs with
+  | .index a _ _ _ => readsArr x a
+  | _ => false
+
+/-- `indexReadsBase`: the index of the assigned element `a[i]` itself reads `a`
+(then no fact about `a[i]` may be recorded: after the store `a[i]` may denote
+another element) -/
+def idxReads : Expr → Bool
+  | .index a _ _ i => readsArr i a
+  | _ => false
+
+/-- the facts that survive an assignment to `lhs` -/
+def dropLHS (fs : List Expr) (lhs : Expr) : List Expr :=
+  fs.filter (fun f => !mentionsLHS lhs f)
 
 /-- `simplify` (assert.go) on `l op r` for the two operators `facts.update` builds -/
 def simplifyBin (op : BOp) (l r : Expr) : Expr :=
@@ -73,12 +95,12 @@ def rewriteFact (op : BOp) (lhs rhs : Expr) (x : Expr) : Option Expr :=
   match x with
   | .binary xop xl xr =>
     if xl == lhs then
-      if mentions xr lhs || mentions rhs lhs then none
+      if mentionsLHS lhs xr || mentionsLHS lhs rhs || idxReads lhs then none
       else match op with
         | .plus | .minus => some (.binary xop xl (simplifyBin op xr rhs))
         | _ => none
-    else if mentions x lhs then none else some x
-  | _ => if mentions x lhs then none else some x
+    else if mentionsLHS lhs x then none else some x
+  | _ => if mentionsLHS lhs x then none else some x
 
 def isVar : Expr → Bool
   | .var _ _ => true
@@ -91,18 +113,22 @@ def isLhs : Expr → Bool
   | _ => false
 
 /-- `bcheckAssignment` for a scalar variable or an array element on the left and a
-pure expression of the fragment on the right.  For an element `a[i]` the rule is the
-one of the code: only the facts that `Mention` the very expression `a[i]` are dropped
-(facts about `a[j]` survive: the index-aliasing finding, see `Props.C01`). -/
+pure expression of the fragment on the right.  For an element `a[i]` every fact that
+reads an element of `a` is dropped (`mentionsLHS`), and no fact about `a[i]` is recorded
+when `i` or the right-hand side read `a` (repaired: fixes/C01-index-alias-store.patch;
+the unrepaired rule dropped only the facts that `Mention` the very expression `a[i]`,
+see `Props.C01.index_alias_witness`). -/
 def checkStmt (fs : List Expr) : Stmt → Option (List Expr)
   | .assign lhs rhs =>
     if !isLhs lhs then none else
     match bcheck fs false lhs, bcheck fs false rhs with
     | some _, some rb =>
       if !fitsType (typeOf lhs) rb then none else
-      let fs1 := dropMentioning fs lhs
+      let fs1 := dropLHS fs lhs
       if !isNumBase (typeOf lhs).base then some fs1 else
-      let fs2 := if mentions rhs lhs then fs1 else appendFact fs1 (.binary .eq lhs rhs)
+      let fs2 := if mentionsLHS lhs rhs || idxReads lhs then fs1
+        else appendFact fs1 (.binary .eq lhs rhs)
+      if idxReads lhs then some fs2 else
       match rhs with
       | .const _ => some fs2
       | _ => boundFacts fs2 lhs rb
@@ -117,6 +143,7 @@ def checkStmt (fs : List Expr) : Stmt → Option (List Expr)
         if !fitsType (typeOf lhs) nb then none else
         let fs1 := fs.filterMap (rewriteFact op lhs rhs)
         if !isNumBase (typeOf lhs).base then some fs1 else
+        if idxReads lhs then some fs1 else
         boundFacts fs1 lhs nb
     | _, _ => none
 
